@@ -448,6 +448,11 @@ def main():
     try:
         outputs['Codegen.v'] = gen_codegen()
         outputs['Dunder.v'] = gen_dunder()
+        import translate_stmt
+        try:
+            outputs['Kernels.v'] = translate_stmt.generate()
+        except translate_stmt.Unsupported as e:
+            raise Unsupported(f'statement back end: {e}')
     except (Unsupported, KeyError, IndexError, AttributeError, AssertionError, SyntaxError) as e:
         print(f'TRANSLATOR-FAIL-CLOSED {type(e).__name__}: {e}')
         return 1
